@@ -81,9 +81,19 @@ def goenv():
     return env
 
 
+def _die_with_parent():
+    # children (TLC, drivers, go build) must not outlive a check that is killed
+    try:
+        import ctypes
+        import signal
+        ctypes.CDLL("libc.so.6").prctl(1, signal.SIGKILL)      # PR_SET_PDEATHSIG
+    except Exception:
+        pass
+
+
 def run(cmd, cwd=None, env=None, timeout=None, stdin=None):
     try:
-        p = subprocess.run(cmd, cwd=cwd, env=env, timeout=timeout, input=stdin,
+        p = subprocess.run(cmd, cwd=cwd, env=env, timeout=timeout, input=stdin, preexec_fn=_die_with_parent,
                            stdout=subprocess.PIPE, stderr=subprocess.PIPE, text=True, errors="replace")
         return p.returncode, p.stdout, p.stderr
     except subprocess.TimeoutExpired as e:
